@@ -20,11 +20,11 @@ if grep -rq "consensus/ticker\|utility.GetTime" $pkg 2>/dev/null; then :; fi
 mkdir -p /tmp/seed_ov_$id && sed 's/if !ntpInitFlag {/if false \&\& !ntpInitFlag {/' $d/src/utility/time.go > /tmp/seed_ov_$id/time.go
 echo "{\"Replace\": {\"$d/src/utility/time.go\": \"/tmp/seed_ov_$id/time.go\"}}" > /tmp/seed_ov_$id/ov.json
 echo "== demo WITH change (must fail)"
-go test -overlay /tmp/seed_ov_$id/ov.json -timeout 300s -vet=off -count=1 -run 'SeedDemo|ZZSeed' $pkg > /tmp/seed_with_$id.log 2>&1; rc_with=$?
+go test -overlay /tmp/seed_ov_$id/ov.json -timeout 300s -vet=off -count=1 -run '(?i)seed' $pkg > /tmp/seed_with_$id.log 2>&1; rc_with=$?
 tail -3 /tmp/seed_with_$id.log | cut -c1-200
 git stash push -q -- $(git diff --name-only -- src ':!*zz_seed_demo_test.go')
 echo "== demo WITHOUT change (must pass)"
-go test -overlay /tmp/seed_ov_$id/ov.json -timeout 300s -vet=off -count=1 -run 'SeedDemo|ZZSeed' $pkg > /tmp/seed_without_$id.log 2>&1; rc_without=$?
+go test -overlay /tmp/seed_ov_$id/ov.json -timeout 300s -vet=off -count=1 -run '(?i)seed' $pkg > /tmp/seed_without_$id.log 2>&1; rc_without=$?
 tail -2 /tmp/seed_without_$id.log | cut -c1-200
 git stash pop -q
 echo "rc_with=$rc_with rc_without=$rc_without"
